@@ -1,6 +1,6 @@
 (* C01 — explicit tree-automata inclusion is exact under every algorithm selection. Statements only. *)
 From Coq Require Import List NArith Bool.
-From V Require Import Sem Prod Incl TrimDefs TrimProofs Lang InclDefs InclProofs AntichainUp DownIncl BinopDefs BinopProofs ReduceDefs ReduceProofs DownInclSim SharedTable DownInclCacheDefs DownInclCacheProofs.
+From V Require Import Sem Prod Incl TrimDefs TrimProofs Lang InclDefs InclProofs AntichainUp DownIncl BinopDefs BinopProofs ReduceDefs ReduceProofs DownInclSim SharedTable DownInclCacheDefs DownInclCacheProofs DownInclOptDefs DownInclOptProofs.
 
 (* the verdict function every selection must compute (prepare by trimming, then decide) is exact *)
 Theorem C01_exact : forall v A B, incl_model v A B = true <-> (forall t, accepts A t -> accepts B t).
@@ -68,6 +68,17 @@ Proof. exact downc_scoped_refines. Qed.
 Theorem C01_down_cache_shared_refuted : downc_incl true trapA trapB 30 = Some true /\ ~ lincl trapA trapB /\ downc_incl false trapA trapB 30 = Some false.
 Proof. exact downc_shared_refuted. Qed.
 
+(* (A) the same algorithm with the IMPLICATION CACHE of the "opt" selections (OptDownwardInclusionFunctor): every positive answer carries
+   its antecedent (the open goals it was obtained under) and its consequents; a goal leaves its own antecedent when its expansion succeeds;
+   consequents are promoted to the global cache only when the antecedent is empty. Whatever the fuel, an answer is the truth. Promoting the
+   consequents regardless of the antecedent is refuted. *)
+Theorem C01_down_opt_partial_correct : forall A B fuel b, downo_incl false A B fuel = Some b -> (b = true <-> forall t, accepts A t -> accepts B t).
+Proof. exact downo_partial_correct. Qed.
+Theorem C01_down_opt_refines : forall A B fuel b, downo_incl false A B fuel = Some b -> b = incl_dec A B.
+Proof. exact downo_refines. Qed.
+Theorem C01_down_opt_careless_refuted : downo_incl true trapA trapB 30 = Some true /\ ~ lincl trapA trapB /\ downo_incl false trapA trapB 30 = Some false.
+Proof. exact downo_careless_refuted. Qed.
+
 Print Assumptions C01_exact.
 Print Assumptions C01_down_sim_partial_correct.
 Print Assumptions C01_down_partial_correct.
@@ -87,3 +98,6 @@ Print Assumptions C01_shared_table_finals_not_necessary.
 Print Assumptions C01_down_cache_scoped_partial_correct.
 Print Assumptions C01_down_cache_scoped_refines.
 Print Assumptions C01_down_cache_shared_refuted.
+Print Assumptions C01_down_opt_partial_correct.
+Print Assumptions C01_down_opt_refines.
+Print Assumptions C01_down_opt_careless_refuted.
